@@ -36,7 +36,9 @@ func newPQ() *pq { q := &pq{}; q.c = sync.NewCond(&q.mu); return q }
 
 type timeoutErr struct{}
 
-func (timeoutErr) Error() string   { return "c15 pipe: i/o timeout" }
+const pipeTimeoutText = "c15 pipe: i/o timeout"
+
+func (timeoutErr) Error() string   { return pipeTimeoutText }
 func (timeoutErr) Timeout() bool   { return true }
 func (timeoutErr) Temporary() bool { return false }
 
@@ -89,7 +91,7 @@ func (p *pipeEnd) SetWriteDeadline(t time.Time) error { return nil }
 
 func newPipe(d time.Duration) (*pipeEnd, *pipeEnd) {
 	a, b := newPQ(), newPQ()
-	time.AfterFunc(d, func() {
+	time.AfterFunc(hx.D(d), func() { // 10x when the case is re-run alone
 		for _, q := range []*pq{a, b} {
 			q.mu.Lock()
 			q.expired = true
@@ -148,6 +150,11 @@ func runHd(pair string, c vcfg) (string, string) {
 		case <-done:
 			detail = cr + " | " + sr
 			cres, sres = strings.TrimSpace(cr[:3]), strings.TrimSpace(sr[:3])
+			if strings.Contains(cr, pipeTimeoutText) || strings.Contains(sr, pipeTimeoutText) {
+				// the pipe's wall-clock limit cut the handshake short: a deadline verdict (re-examined alone), not an error
+				cres, sres = "HANG", "HANG"
+				return
+			}
 			if cres == "PAN" {
 				cres = "PANIC"
 			}
@@ -157,7 +164,7 @@ func runHd(pair string, c vcfg) (string, string) {
 			if cres == "ok" {
 				resumed = cli.ConnectionState().DidResume
 			}
-		case <-time.After(8 * time.Second):
+		case <-time.After(hx.D(8 * time.Second)):
 		}
 		a.Close()
 		return
